@@ -113,6 +113,12 @@ impl Stats {
         self.samples.len() < MAX_SAMPLES
     }
     pub fn violate(&mut self, sig: &str, msg: String, replay: Json) {
+        // a full disk / exhausted scratch space is a failure of the environment the run happens in, never a verdict on
+        // the code under test: such an observation is inconclusive
+        if ["StorageFull", "No space left on device", "Os { code: 28", "os error 28"].iter().any(|m| msg.contains(m) || sig.contains(m)) {
+            self.inconclusive(format!("environment: scratch space full while running [{}]: {}", sig, msg.chars().take(160).collect::<String>()));
+            return;
+        }
         self.violations_total += 1;
         let c = self.viol_by_sig.entry(sig.to_string()).or_insert(0);
         *c += 1;
